@@ -54,7 +54,7 @@ CONFIGS = [
     ModelCfg("m-n2o1e3-rr", consts(2, 1, 3, '{"recv1"}', 0, env='{"cancel", "native", "esend"}'), emit=True,
              check=False, replay_kw=kw(0)),
     ModelCfg("m-n3o1e3-rr", consts(3, 1, 3, '{"recv1"}', 1, env='{"cancel", "esend"}'), emit=True,
-             check=False, replay_kw=kw(1), max_scenarios=4000),
+             check=False, replay_kw=kw(1), max_scenarios=2500),
     ModelCfg("m-n2o1e3-ss", consts(2, 1, 3, '{"send1"}', 0, env='{"cancel", "erecv"}'), emit=True,
              check=False, replay_kw=kw(0)),
     # operations inside a shielded scope nested in the scope the environment cancels: the cancellation
@@ -62,16 +62,16 @@ CONFIGS = [
     ModelCfg("m-n2o1e3-wrap", consts(2, 1, 3, '{"recv1"}', 1, env='{"cancel", "esend"}', wrap=True), emit=True,
              replay_kw=kw(1, wrap=True)),
     ModelCfg("m-n2o2e2-wrap", consts(2, 2, 2, OPS_DATA, 0, env='{"cancel", "native", "esend", "erecv"}', wrap=True),
-             emit=True, check=False, replay_kw=kw(0, wrap=True), max_scenarios=4000),
+             emit=True, check=False, replay_kw=kw(0, wrap=True), max_scenarios=2000),
     # clients survive the cancellation of their scope (move_on_after pattern) and send / receive again
     ModelCfg("m-n2o3e2-retry", consts(2, 3, 2, '{"send1", "recv1"}', 0, env='{"cancel", "esend"}', retry=True),
-             emit=True, check=False, replay_kw=kw(0, retry=True), max_scenarios=3000),
-    ModelCfg("m-n3o3e2-retry", consts(3, 3, 2, OPS_DATA, 1, retry=True), simulate=1000, check=False,
+             emit=True, check=False, replay_kw=kw(0, retry=True), max_scenarios=1500),
+    ModelCfg("m-n3o3e2-retry", consts(3, 3, 2, OPS_DATA, 1, retry=True), simulate=600, check=False,
              replay_kw=kw(1, retry=True)),
     ModelCfg("m-n2o2e1-b0", consts(2, 2, 1, OPS1, 0), emit=True, check=False, replay_kw=kw(0),
-             max_scenarios=5000),
+             max_scenarios=2500),
     ModelCfg("m-n2o2e1-b1", consts(2, 2, 1, OPS1, 1), emit=True, check=False, replay_kw=kw(1),
-             max_scenarios=5000),
+             max_scenarios=2500),
     ModelCfg("m-n3o2e2-b0", consts(3, 2, 2, OPS_DATA, 0), tiers=("quick",), check=False, simulate=1200,
              replay_kw=kw(0)),
     ModelCfg("m-n2o3e1-close", consts(2, 3, 1, OPS_CLOSE, 1, 2, 2, '{"cancel", "esend", "erecv"}'),
